@@ -139,9 +139,9 @@ func (s *MultipartReply) UnmarshalBinary(data []byte) error {
 		case MultipartType_Flow:
 			repl = new(FlowStats)
 		case MultipartType_Port:
-			repl = new(PortStats)
+			repl = NewPortStats()
 		case MultipartType_Table:
-			repl = new(TableStats)
+			repl = NewTableStats()
 		case MultipartType_Queue:
 			repl = new(QueueStats)
 		case MultipartType_PortDesc:
